@@ -38,6 +38,7 @@ type crashInput struct {
 	KillPoint string `json:"kill_point"` // txn.begin | txn.precommit | txn.committed | cas.beforeSetLastCas | cas.beforePost
 	KillNth   int    `json:"kill_nth"`
 	ReopenCreateOrOpen bool `json:"reopen_create_or_open,omitempty"` // the fresh process opens the bucket with CreateOrOpen instead of ReOpenExisting
+	TryCreateNew       bool `json:"try_create_new,omitempty"`        // ... after a CreateNew, which must be refused and leave the bucket alone
 	KillLast  bool   `json:"kill_last,omitempty"` // false: count occurrences from the start; true: count only inside the last step
 }
 
@@ -343,6 +344,13 @@ func execCrash(in crashInput, scratch string) (Case, error) {
 	if in.ReopenCreateOrOpen {
 		mode = rosmar.CreateOrOpen
 	}
+	if in.TryCreateNew {
+		if hn, e := rosmar.OpenBucket("rosmar://"+filepath.Join(dir, "b"), name, rosmar.CreateNew); e == nil {
+			hn.Close(ctxBg)
+			c.Fatal = "CreateNew succeeded on a directory that holds a bucket"
+			return c, nil
+		}
+	}
 	h, err := rosmar.OpenBucket("rosmar://"+filepath.Join(dir, "b"), name, mode)
 	if err != nil {
 		c.Notes = append(c.Notes, "reopen failed: "+err.Error())
@@ -434,6 +442,7 @@ func genCrash(r *rand.Rand) crashInput {
 		}
 	}
 	in.ReopenCreateOrOpen = r.Intn(2) == 0
+	in.TryCreateNew = r.Intn(3) == 0
 	in.KillPoint = pick(r, []string{"txn.begin", "txn.precommit", "txn.committed", "cas.beforeSetLastCas", "cas.beforePost"})
 	in.KillNth = 1 + r.Intn(2*len(in.Ops)+1)
 	if len(in.Ops) > 0 && r.Intn(2) == 0 {
